@@ -17,7 +17,7 @@ ASSUMPTIONS = [
     "reference model E5 (vf/model) is a faithful reading of June-2018 section 6",
     "documents within d rewrites of the seeds over schema K; data trees from vf.data.TreeBuilder variants",
 ]
-BUDGET_S = {"quick": 150, "thorough": 3000}
+BUDGET_S = {"quick": 600, "thorough": 3000}
 
 DEPTH = {"quick": 2, "thorough": 3}
 SLICES = {"quick": 8, "thorough": 32}
